@@ -419,3 +419,63 @@ pub proof fn lemma_weak_sorted_by_ord<const N: usize>(s: Seq<tinystr::TinyAsciiS
         assert(lex_le(texts::<N>(s)[i], texts::<N>(s)[j]));
     }
 }
+
+/// permutation of the vector => permutation of the texts
+pub proof fn lemma_texts_multiset<const N: usize>(a: Seq<tinystr::TinyAsciiStr<N>>, b: Seq<tinystr::TinyAsciiStr<N>>)
+    requires a.to_multiset() == b.to_multiset(),
+    ensures texts::<N>(a).to_multiset() == texts::<N>(b).to_multiset(),
+{
+    // texts(s) == s.map_values(text); to_multiset of a map_values image depends only on the multiset
+    assert(texts::<N>(a) =~= a.map_values(|t: tinystr::TinyAsciiStr<N>| text(t)));
+    assert(texts::<N>(b) =~= b.map_values(|t: tinystr::TinyAsciiStr<N>| text(t)));
+    lemma_map_values_multiset(a, b, |t: tinystr::TinyAsciiStr<N>| text(t));
+}
+pub proof fn lemma_map_values_multiset<A, B>(a: Seq<A>, b: Seq<A>, f: spec_fn(A) -> B)
+    requires a.to_multiset() == b.to_multiset(),
+    ensures a.map_values(f).to_multiset() == b.map_values(f).to_multiset(),
+    decreases a.len(),
+{
+    a.to_multiset_ensures();
+    b.to_multiset_ensures();
+    if a.len() == 0 {
+        assert(b.len() == 0);
+        assert(a.map_values(f) =~= b.map_values(f));
+    } else {
+        let x = a[a.len() - 1];
+        assert(a.contains(x));
+        assert(b.to_multiset().count(x) > 0);
+        assert(b.contains(x));
+        let j = choose|j: int| 0 <= j < b.len() && b[j] == x;
+        let a2 = a.drop_last();
+        let b2 = b.remove(j);
+        assert(a =~= a2.push(x));
+        b.remove_ensures(j);
+        assert(a2.to_multiset() =~= a.to_multiset().remove(x)) by {
+            a2.to_multiset_ensures();
+            assert(a2.push(x).to_multiset() == a2.to_multiset().insert(x));
+        }
+        assert(b2.to_multiset() == b.to_multiset().remove(x));
+        lemma_map_values_multiset(a2, b2, f);
+        // rebuild
+        assert(a.map_values(f) =~= a2.map_values(f).push(f(x)));
+        a2.map_values(f).to_multiset_ensures();
+        assert(a.map_values(f).to_multiset() == a2.map_values(f).to_multiset().insert(f(x)));
+        assert(b.map_values(f) =~= b2.map_values(f).insert(j, f(x)));
+        lemma_insert_multiset(b2.map_values(f), j, f(x));
+    }
+}
+pub proof fn lemma_insert_multiset<B>(s: Seq<B>, j: int, x: B)
+    requires 0 <= j <= s.len(),
+    ensures s.insert(j, x).to_multiset() == s.to_multiset().insert(x),
+{
+    let t = s.insert(j, x);
+    assert(t.remove(j) =~= s);
+    t.remove_ensures(j);
+    t.to_multiset_ensures();
+    s.to_multiset_ensures();
+    assert(t.to_multiset() =~= s.to_multiset().insert(x)) by {
+        assert(t.remove(j).to_multiset() == t.to_multiset().remove(x));
+        assert(t.contains(x)) by { assert(t[j] == x); }
+        assert(t.to_multiset().count(x) > 0);
+    }
+}
